@@ -8,6 +8,12 @@ from lark.exceptions import UnexpectedToken
 
 ###{standalone
 
+def _is_terminal_name(name: str) -> bool:
+    # Terminals are upper-case and rules are lower-case, but a name that was imported as a dependency
+    # of another rule carries the (lower-case) name of its module: "module__NAME"
+    return '{' not in name and name.rsplit('__', 1)[-1].isupper()
+
+
 class ParseConf(Generic[StateT]):
     __slots__ = 'parse_table', 'callbacks', 'start', 'start_state', 'end_state', 'states'
 
@@ -76,7 +82,7 @@ class ParserState(Generic[StateT]):
             try:
                 action, arg = states[state][token.type]
             except KeyError:
-                expected = {s for s in states[state].keys() if s.isupper()}
+                expected = {s for s in states[state].keys() if _is_terminal_name(s)}
                 raise UnexpectedToken(token, expected, state=self, interactive_parser=None)
 
             assert arg != end_state
